@@ -17,9 +17,20 @@ Theorem C14_second_responder_faulty : forall p d h w recv_time id r a b c e,
   p_peer p = PDMeasuring id (Some r) a b c e ->
   h_seq h = id -> pi_eqb r (h_source h) = false ->
   exists o, handle_peer_delay_response p d h w (p_identity p) recv_time
-            = Ok (port_with_state p PFaulty, d, o)
+            = Ok (port_with_state (port_with_peer p PDEmpty) PFaulty, d, o)
             /\ forall m, ~ In (OFilterMeas m) o.
 Proof. exact second_responder_faulty. Qed.
+
+(** ... and the contested exchange is dead: with the exchange dropped, neither
+    a response, nor a follow-up, nor a (late) transmit timestamp produces a
+    measurement or changes the port, so the faulty state can only be left
+    through a later exchange (repaired F25). *)
+Theorem C14_contested_exchange_is_dead : forall p d,
+  p_peer p = PDEmpty ->
+  (forall h w rq ts, handle_peer_delay_response p d h w rq ts = Ok (p, d, [])) /\
+  (forall h w rq, handle_peer_delay_follow_up p d h w rq = Ok (p, d, [])) /\
+  (forall id ts, handle_pdelay_timestamp p d id ts = Ok (p, d, [])).
+Proof. exact contested_exchange_dead. Qed.
 
 Theorem C14_second_responder_after_measurement_faulty : forall p d h w recv_time id r,
   p_peer p = PDPost id r ->
